@@ -6,7 +6,7 @@ import DateutilVerif.Proofs.RRuleOrig
 import DateutilVerif.Proofs.RRuleStrWhole
 
 namespace RRuleStr
-open RRule (Args Rule construct origArgs construct_origArgs)
+open RRule (Args Rule construct origArgs construct_origArgs constructW resolveW)
 
 def sixOf (d : DT) : Nat × Nat × Nat × Nat × Nat × Nat :=
   (d.y.toNat, d.m.toNat, d.d.toNat, d.hh.toNat, d.mm.toNat, d.ss.toNat)
@@ -121,5 +121,48 @@ theorem parse_toStr_constructs_same_rule (a : Args) (r : Rule) (h : construct a 
   · rw [backArgs_argsOf o.po _ hf hne, construct_wkst _ _ (by
       by_cases hw : (origArgs a r).wkst.getD 0 = 0 <;> simp [hw])]
     exact construct_origArgs a r h hsp
+
+/-! ### the ambient first weekday (`calendar.firstweekday()`) made explicit -/
+
+/-- **the round trip under an ambient first weekday `k`** (`calendar.setfirstweekday(k)`; `k = 0` is the interpreter's
+    default).  `r = rrule(**a)` built under ambient `k` (`constructW k a`); `str(r)` does not depend on `k`; the reparsed
+    arguments are handed to the constructor under the SAME ambient `k`.  The rule comes back exactly when
+    `r.wkst ≠ 0 ∨ k = 0`: `__str__` omits `WKST` when `_wkst == 0`, so a rule whose week starts on Monday is rebuilt with the
+    ambient week start.  (Hypotheses otherwise as in `parse_toStr_constructs_same_rule`.) -/
+theorem parse_toStr_constructs_same_rule_ambient (k : Int) (a : Args) (r : Rule) (h : constructW k a = .ok r)
+    (hsp : a.bysetpos ≠ some [])
+    (hne : NoEmptyBy (origArgs (resolveW k a) r)) (hpr : Printable (strInOf (origArgs (resolveW k a) r)))
+    (hf : 0 ≤ (origArgs (resolveW k a) r).freq) (hw : r.wkst ≠ 0 ∨ k = 0)
+    (o : Opts) (hu : o.unfold = false) (hfs : o.forceset = false) (hc : o.compatible = false) (kw : Bool) :
+    ∃ pa dt, parseRfc (toStr (strInOf (origArgs (resolveW k a) r))) o kw = .ok (.rule pa (some dt) o.cache) ∧
+      constructW k (backArgs (origArgs (resolveW k a) r) pa) = .ok r := by
+  have h' : construct (resolveW k a) = .ok r := h
+  have hsp' : (resolveW k a).bysetpos ≠ some [] := hsp
+  refine ⟨argsOf o.po (strInOf (origArgs (resolveW k a) r)), (showDT (sixOf (origArgs (resolveW k a) r).dtstart), [], o.po), ?_, ?_⟩
+  · exact parseRfc_toStr _ hpr _ rfl o hu hfs hc kw
+  · show construct (resolveW k (backArgs _ _)) = _
+    rw [backArgs_argsOf o.po _ hf hne]
+    have hwk : (origArgs (resolveW k a) r).wkst = some r.wkst := rfl
+    show construct { origArgs (resolveW k a) r with
+        wkst := some ((if (origArgs (resolveW k a) r).wkst.getD 0 != 0 then some ((origArgs (resolveW k a) r).wkst.getD 0) else none).getD k) } = _
+    rw [construct_wkst _ _ (by
+      rw [hwk]
+      simp only [Option.getD_some]
+      rcases hw with hw | hw
+      · simp [hw]
+      · subst hw; by_cases h0 : r.wkst = 0 <;> simp [h0])]
+    exact construct_origArgs _ r h' hsp'
+
+/-- … and the excluded case is real: a WEEKLY rule with an explicit `wkst=MO`, built and reparsed under
+    `calendar.setfirstweekday(6)`, comes back with week start 6 (known finding D-C13-ambient-wkst) -/
+def ambientWitness : Args :=
+  { freq := 2, dtstart := ⟨1997, 8, 5, 9, 0, 0, 0⟩, interval := 2, wkst := some 0, count := some 4,
+    byweekday := some [(1, 0), (6, 0)] }
+
+theorem ambient_wkst_counterexample :
+    (do let r ← constructW 6 ambientWitness
+        let o := origArgs (resolveW 6 ambientWitness) r
+        let r' ← constructW 6 (backArgs o (argsOf {} (strInOf o)))
+        pure (r.wkst, r'.wkst, decide (r' = r))) = .ok (0, 6, false) := by decide +kernel
 
 end RRuleStr
